@@ -83,7 +83,9 @@ class RustMagicNumberAnalyzer(RustBaseAnalyzer):
         try:
             if node.type == "float_literal":
                 return float(cleaned)
-            return int(cleaned, 0)  # Handles hex, octal, binary
+            if cleaned[:2].lower() in ("0x", "0o", "0b"):
+                return int(cleaned, 0)  # Handles hex, octal, binary
+            return int(cleaned, 10)  # leading zeros are legal in Rust decimals (0755 is 755)
         except (ValueError, TypeError):
             return None
 
